@@ -12,6 +12,7 @@ import (
 	"time"
 
 	"github.com/bokysan/socketace/v2/verifharness/bubble"
+	"github.com/bokysan/socketace/v2/verifharness/syncshim"
 	"github.com/bokysan/socketace/v2/verifharness/world"
 )
 
@@ -83,6 +84,11 @@ func executeALong(t *testing.T, c CaseALong) (kind, detail string) {
 			for len(got) < len(want) {
 				n, err := rd.Read(buf)
 				got = append(got, buf[:n]...)
+				if n > 0 {
+					// delivery is progress: the whole transfer may run within one harness step (no fake time is
+					// needed on a loss-free path), and a loaded machine must not turn "slow" into "stuck"
+					syncshim.Steps.Add(1)
+				}
 				if err != nil {
 					return
 				}
